@@ -266,4 +266,86 @@ def predict (f : Field) (cur val : Const) : Pred :=
   | .int | .uint | .bool | .str | .float | .ptrint => predictScalar f cur val
   | _ => Pred.unknown
 
+/-! ## config.Manager and the remote `source` of a configuration (config/config.go:355-475, 496-515)
+
+A configuration document either is not parsable, or declares a non-empty `"source"` URL (everything else in
+it is then ignored), or is a plain set of sections.  `Manager.LoadJSON` of a sourced document sets
+`Manager.Source`, fetches the URL and loads the body with `sourceRedirs = 1`, which refuses a body that has a
+source of its own (after having set `Source` to it and fetched it).  `Manager.ToJSON` writes only
+`{"source": Source}` while `Source` is non-empty.  Nothing ever clears `Source`.
+
+`υ` is the type of URLs, `web` what a GET answers.  The effective configuration of the registered sections is
+abstracted to a number (`cfg = none`: the sections do not validate, `ToJSON` refuses). -/
+namespace Src
+
+inductive Doc (υ : Type) where
+  | garbage                          -- json.Unmarshal fails
+  | sourced (u : υ)                  -- "source": u, u ≠ ""
+  | plain (c : Nat) (valid : Bool)   -- sections; valid = every section loads and Manager.Validate passes
+  deriving DecidableEq, Repr
+
+inductive Remote (υ : Type) where
+  | down                                 -- http.Get fails
+  | resp (code : Nat) (body : Doc υ)     -- after redirects have been followed
+  deriving Repr
+
+/-- the Manager state that matters: `Source` (none = "") and the loaded sections -/
+structure Mgr (υ : Type) where
+  source : Option υ
+  cfg : Option Nat
+  deriving DecidableEq, Repr
+
+def fresh : Mgr υ := { source := none, cfg := none }
+
+/-- `LoadJSON` as called from `LoadJSONFromHTTPSource` (sourceRedirs = 1) -/
+def loadNested (m : Mgr υ) : Doc υ → Mgr υ × Bool
+  | .garbage => (m, false)
+  | .plain c v => ({ m with cfg := if v then some c else none }, v)
+  | .sourced u => ({ m with source := some u }, false)  -- Source := u, GET, then fetch error / status / errSourceRedirect
+
+/-- `LoadJSONFromHTTPSource` on a Manager at rest (sourceRedirs = 0; the deferred reset restores 0) -/
+def fromHTTP (web : υ → Remote υ) (m : Mgr υ) (u : υ) : Mgr υ × Bool :=
+  let m1 := { m with source := some u }
+  match web u with
+  | .down => (m1, false)
+  | .resp code body => if code ≥ 300 then (m1, false) else loadNested m1 body
+
+/-- `LoadJSON` / `LoadJSONFromFile` on a Manager at rest -/
+def loadJSON (web : υ → Remote υ) (m : Mgr υ) : Doc υ → Mgr υ × Bool
+  | .garbage => (m, false)
+  | .plain c v => ({ m with cfg := if v then some c else none }, v)
+  | .sourced u => fromHTTP web m u
+
+/-- `Manager.Default()`: every section takes its default (configuration number 0); `Source` is not touched -/
+def dflt (m : Mgr υ) : Mgr υ := { m with cfg := some 0 }
+
+/-- `ToJSON` / `SaveJSON`: refuses when the sections do not validate -/
+def save (m : Mgr υ) : Option (Doc υ) :=
+  match m.cfg with
+  | none => none
+  | some c => match m.source with
+    | some u => some (.sourced u)
+    | none => some (.plain c true)
+
+inductive Op (υ : Type) where
+  | load (d : Doc υ)     -- LoadJSON or LoadJSONFromFile
+  | http (u : υ)         -- LoadJSONFromHTTPSource
+  | dflt
+  deriving Repr
+
+def step (web : υ → Remote υ) (m : Mgr υ) : Op υ → Mgr υ × Bool
+  | .load d => loadJSON web m d
+  | .http u => fromHTTP web m u
+  | .dflt => (dflt m, true)
+
+/-- one Manager used for a sequence of operations: final state and the result of each -/
+def run (web : υ → Remote υ) (m : Mgr υ) : List (Op υ) → Mgr υ × List Bool
+  | [] => (m, [])
+  | o :: rest =>
+    let r := step web m o
+    let rr := run web r.1 rest
+    (rr.1, r.2 :: rr.2)
+
+end Src
+
 end CV.C15
